@@ -8,7 +8,7 @@ import numpy as np
 from symoas import cases as K
 from symoas import model, oblig, pipe, report
 from symoas.model import SymComp, idents, num_inputs, run_obligations
-from symoas.sym import S, ZERO, ONE, symarray, var
+from symoas.sym import S, ZERO, ONE, ne, symarray, var
 
 PID = "C19"
 UNITS = {"alpha": "deg", "beta": "deg", "v": "m/s", "rho": "kg/m**3"}
@@ -265,6 +265,68 @@ def mphys_groups(rep, tier, timeout):
                     replay=lambda ob, env: replay_mphys(ss))
 
 
+def multi_spline_indices(rep, tier, timeout):
+    """Sections joined by construction: the real connect_multi_spline hands every section a run of consecutive entries of
+    the unified control vector, neighbouring runs share exactly their edge entry, and the runs cover the vector that the
+    real build_multi_spline sizes - ground obligations on the index arrays the real functions produce for control-point
+    counts of 2 to 5 per section (a count of 1 ends a run without overlap, as documented)."""
+    import itertools
+
+    import openaerostruct.geometry.multi_unified_bspline_utils as mu
+
+    rep.encode(mu.build_multi_spline, mu.connect_multi_spline)
+
+    class _Rec:
+        def __init__(self):
+            self.calls = []
+            self.model = self
+
+        def connect(self, src, tgt, src_indices=None):
+            self.calls.append((src, tgt, np.asarray(src_indices)))
+
+    def indices(counts):
+        rec = _Rec()
+        secs = [{"name": "sec%d" % i} for i in range(len(counts))]
+        cps = [np.ones(c) for c in counts]
+        mu.connect_multi_spline(rec, secs, cps, "chord_cp", "chord_bspline", "geo")
+        ivc = mu.build_multi_spline("chord_cp", len(counts), cps)
+        # the size build_multi_spline gave the unified vector (an IndepVarComp that is not set up yet keeps its outputs in a list)
+        size = None
+        for md_ in getattr(ivc, "_static_var_rel2meta", {}).values():
+            size = int(md_["size"])
+        return [c[2] for c in rec.calls], size
+
+    lists = [c for n in (2, 3) for c in itertools.product((2, 3, 4), repeat=n)] + ([(5, 2, 3), (3, 5, 4)] if tier != "quick" else [])
+    obs = []
+    for counts in lists:
+        idx, size = indices(counts)
+        tag = "counts %s" % (list(counts),)
+        meta = {"counts": list(counts)}
+        for i, a in enumerate(idx):
+            obs.append(oblig.Ob("%s: section %d gets %d consecutive entries" % (tag, i, counts[i]), cond=ne(S(int(len(a) == counts[i] and bool(np.all(np.diff(a) == 1)))), 1),
+                                meta=dict(meta, family="every section reads a run of consecutive entries of the unified control vector")))
+            if i + 1 < len(idx):
+                obs.append(oblig.Ob("%s: sections %d and %d share their edge entry" % (tag, i, i + 1), lhs=S(int(idx[i + 1][0])), rhs=S(int(a[-1])),
+                                    meta=dict(meta, family="neighbouring sections share exactly the control point on their common edge")))
+        obs.append(oblig.Ob("%s: first entry" % tag, lhs=S(int(idx[0][0])), rhs=ZERO, meta=dict(meta, family="the runs cover the unified control vector")))
+        if size is not None:
+            obs.append(oblig.Ob("%s: last entry is the last of the unified vector" % tag, lhs=S(int(idx[-1][-1])), rhs=S(size - 1), meta=dict(meta, family="the runs cover the unified control vector")))
+
+    def rp(ob, env):
+        counts = ob.meta["counts"]
+        idx, size = indices(counts)
+        bad = []
+        for i in range(len(idx) - 1):
+            if idx[i + 1][0] != idx[i][-1]:
+                bad.append("section %d ends at entry %d, section %d starts at %d" % (i, idx[i][-1], i + 1, idx[i + 1][0]))
+        if size is not None and idx[-1][-1] != size - 1:
+            bad.append("last section ends at entry %d of a unified vector of %d" % (idx[-1][-1], size))
+        return bool(bad), "control points per section %s: %s" % (counts, "; ".join(bad) or "runs overlap by one entry and cover the vector")
+
+    run_obligations(rep, "multi-section control points joined by construction (%d count lists)" % len(lists), obs, timeout, replay=rp, cut_threshold=0,
+                    family=lambda ob: "multi-spline: " + ob.meta["family"])
+
+
 def run(tier, seed, only=None):
     rep = report.Report(PID, tier, seed)
     timeout = 20.0 if tier == "quick" else 60.0
@@ -272,6 +334,8 @@ def run(tier, seed, only=None):
         permutation(rep, tier, timeout)
     if not only or "split" in only:
         split(rep, tier, timeout)
+    if not only or "spline" in only:
+        multi_spline_indices(rep, tier, timeout)
     if not only or "mphys" in only:
         mphys_groups(rep, tier, timeout)
         mphys_scenario(rep, tier, timeout)
